@@ -190,6 +190,8 @@ type explorer struct {
 	obs       []obsRec
 
 	local *localMode
+	bind      map[*smt.Term]*smt.Term
+	substMemo map[*smt.Term]*smt.Term
 
 	mapOrderOn    bool
 	mapOrderMax   int
@@ -213,6 +215,8 @@ func (ex *explorer) resetPath(it *workItem) {
 	ex.tagCount = map[string]int{}
 	ex.obs = ex.obs[:0]
 	ex.local = nil
+	ex.bind = map[*smt.Term]*smt.Term{}
+	ex.substMemo = map[*smt.Term]*smt.Term{}
 	ex.mapOrderOn = false
 	ex.mapOrderMax = 3
 	ex.adversMapPkgs = nil
@@ -248,6 +252,19 @@ func (ex *explorer) addPC(t *smt.Term) {
 	}
 	if _, ok := ex.decided[t]; ok {
 		return
+	}
+	// equality concretisation: var == const binds the variable for later simplification
+	if t.Op == smt.OpEq {
+		a, b := t.Args[0], t.Args[1]
+		if a.Op == smt.OpConst {
+			a, b = b, a
+		}
+		if a.Op == smt.OpVar && b.Op == smt.OpConst {
+			if _, have := ex.bind[a]; !have {
+				ex.bind[a] = b
+				ex.substMemo = map[*smt.Term]*smt.Term{}
+			}
+		}
 	}
 	ex.pc = append(ex.pc, t)
 	ex.decided[t] = true
@@ -301,6 +318,7 @@ func (ex *explorer) check(extra *smt.Term) (smt.Result, map[*smt.Term]uint64) {
 }
 
 var slowLog = os.Getenv("VP_SLOWLOG")
+var unsatLog = os.Getenv("VP_UNSATLOG")
 
 // branch decides a symbolic condition on the current path, scheduling the other side when it
 // is feasible too.
@@ -313,6 +331,17 @@ func (ex *explorer) branch(cond *smt.Term) bool {
 	}
 	if v, ok := ex.decided[cond]; ok {
 		return v
+	}
+	if len(ex.bind) > 0 {
+		if sc := ex.ctx.Subst(cond, ex.bind, ex.substMemo); sc != cond {
+			if sc.IsConst() {
+				return sc.Val == 1
+			}
+			if v, ok := ex.decided[sc]; ok {
+				return v
+			}
+			cond = sc
+		}
 	}
 	if ex.pos < len(ex.prefix) {
 		d := ex.prefix[ex.pos]
@@ -335,6 +364,13 @@ func (ex *explorer) branch(cond *smt.Term) bool {
 		alt = ex.ctx.Not(cond)
 	}
 	res, m := ex.check(alt)
+	if unsatLog != "" && res == smt.Unsat {
+		f, err := os.OpenFile(unsatLog, os.O_APPEND|os.O_CREATE|os.O_WRONLY, 0o644)
+		if err == nil {
+			fmt.Fprintf(f, "ALT %s\n", trunc(alt.String(), 300))
+			f.Close()
+		}
+	}
 	switch res {
 	case smt.Sat:
 		ex.shared.push(&workItem{prefix: ex.clonePrefix(decision{kind: dBranch, val: b2u(!b)}), model: ex.modelByName(m)})
